@@ -61,6 +61,8 @@ def cases(txt):
             cur["P"] = l
         elif l.startswith("WF "):
             cur["WF"] = l
+        elif l.startswith("DV "):
+            cur.setdefault("DV", []).append(l)
         elif l.startswith("SIM "):
             cur["cur"] = l.split()[1]
             cur["sims"][cur["cur"]] = []
@@ -83,33 +85,8 @@ def fact(c, key):
     return None
 
 
-def compare_case(x, y):
-    """x = implementation, y = model.  -> list of findings (kind, detail)"""
+def compare_sims(x, y, src):
     out = []
-    src = "\n".join(x["src"]) + "\n"
-    failed = x["R"] is not None and x["R"].startswith("R err")
-    if x["mustfail"]:
-        if not failed:
-            out.append(("unfit-accepted", {"source": src, "impl": x["R"]}))
-        elif x["R"].startswith("R err panic"):
-            out.append(("unfit-panic", {"source": src, "impl": x["R"]}))
-    elif failed and x["R"].startswith("R err panic"):
-        out.append(("panic", {"source": src, "impl": x["R"]}))
-    if y["R"] == "R unsupported":
-        return out, "outside-subset"
-    if (x["R"] == "R ok") != (y["R"] == "R ok"):
-        out.append(("structural-result", {"source": src, "impl": x["R"], "model": y["R"]}))
-        return out, "compared"
-    if x["R"] != y["R"]:
-        # both reject, for a differently classified reason: the classes come from message texts, which may be
-        # reworded harmlessly; counted, not reported
-        return out, "compared-class-differs"
-    if x["mach"] != y["mach"]:
-        d = next(((p, q) for p, q in zip(x["mach"], y["mach"]) if p != q), (str(len(x["mach"])), str(len(y["mach"]))))
-        out.append(("structural-machine", {"source": src, "impl": d[0], "model": d[1]}))
-        # keep going: the emitted machine is still simulated against the reference interpreter (failing-input search)
-    if y["WF"] is not None and not y["WF"].startswith("WF 1"):
-        out.append(("model-machine-not-wf", {"source": src, "model": y["WF"]}))
     for k, xs in x["sims"].items():
         ys = y["sims"].get(k, [])
         obs = lambda ls: [l for l in ls if l.startswith("X ") or l.startswith("BX ")]
@@ -133,6 +110,47 @@ def compare_case(x, y):
                     d["what_differs"] = "external ports" if l.startswith("BX ") else "a processor's state inside the whole-machine simulation"
                 out.append(("semantic", d))
                 break
+    return out
+
+
+def compare_case(x, y):
+    """x = implementation, y = model.  -> list of findings (kind, detail)"""
+    out = []
+    src = "\n".join(x["src"]) + "\n"
+    failed = x["R"] is not None and x["R"].startswith("R err")
+    if x["mustfail"]:
+        if not failed:
+            out.append(("unfit-accepted", {"source": src, "impl": x["R"]}))
+        elif x["R"].startswith("R err panic"):
+            out.append(("unfit-panic", {"source": src, "impl": x["R"]}))
+    elif failed and x["R"].startswith("R err panic"):
+        out.append(("panic", {"source": src, "impl": x["R"]}))
+    if y["R"] == "R unsupported":
+        # outside the model assembler.  Sources with ROM data sections still have a meaning the oracle interprets:
+        # the data cells and the per-tick simulation are compared.
+        if y.get("DV") and x["R"] == "R ok":
+            cells = [int(l.split()[2], 2) for l in x["mach"] if l.startswith("D ")]
+            want = [int(v) for l in y["DV"] for v in l.split()[2].split(",") if v != ""]
+            if cells != want:
+                out.append(("semantic", {"source": src, "cp": "data", "tick": -1, "stims": [], "impl": "data cells %s" % cells,
+                                         "ref": "data cells %s" % want, "entryfirst": fact(y, "entryfirst"), "litjump": fact(y, "litjump")}))
+            out += compare_sims(x, y, src)
+            return out, "outside-subset-data"
+        return out, "outside-subset"
+    if (x["R"] == "R ok") != (y["R"] == "R ok"):
+        out.append(("structural-result", {"source": src, "impl": x["R"], "model": y["R"]}))
+        return out, "compared"
+    if x["R"] != y["R"]:
+        # both reject, for a differently classified reason: the classes come from message texts, which may be
+        # reworded harmlessly; counted, not reported
+        return out, "compared-class-differs"
+    if x["mach"] != y["mach"]:
+        d = next(((p, q) for p, q in zip(x["mach"], y["mach"]) if p != q), (str(len(x["mach"])), str(len(y["mach"]))))
+        out.append(("structural-machine", {"source": src, "impl": d[0], "model": d[1]}))
+        # keep going: the emitted machine is still simulated against the reference interpreter (failing-input search)
+    if y["WF"] is not None and not y["WF"].startswith("WF 1"):
+        out.append(("model-machine-not-wf", {"source": src, "model": y["WF"]}))
+    out += compare_sims(x, y, src)
     return out, "compared"
 
 
@@ -169,7 +187,10 @@ def analyse(impl, model):
             c = x["R"].split()[2]
             st["err"][c] = st["err"].get(c, 0) + 1
         fs, how = compare_case(x, y)
-        if how == "outside-subset":
+        if how == "outside-subset-data":
+            st["outside_subset"] += 1
+            st["data_section_cases"] = st.get("data_section_cases", 0) + 1
+        elif how == "outside-subset":
             st["outside_subset"] += 1
         else:
             st["compared"] += 1
@@ -294,6 +315,7 @@ def run(rep):
                                "opcodes_in_emitted_machines": tot["ops"], "rom_words": tot["rom_words"],
                                "entry_label_on_first_instruction": tot["entry_first"], "entry_label_elsewhere": tot["entry_not_first"],
                                "outside_parser_subset": tot["outside_subset"],
+                               "data_section_sources_interpreted": tot.get("data_section_cases", 0),
                                "both_reject_with_different_error_class": tot.get("class_differs", 0)},
         "unmodelled": ["templates, fragments, macros, data sections, call resolver, clustering, romsize/ramsize/execmode metas, shared objects",
                        "non-decimal literals (C08)", "multi-processor composition semantics (bonds): only the structure is compared"],
